@@ -23,8 +23,8 @@ from lib import e2e
 
 MARK_BASE = 0xC05A0000
 TIMING = {"timeout": 5.0, "delay": 0.4}  # overwritten by calibrate() in the parent before the workers are forked
-OUTCOMES = ("success", "revert", "panic", "failflag", "stuck")
-QUERYING = ("panic", "failflag", "stuck")
+OUTCOMES = ("success", "revert", "panic", "failflag", "stuck", "stuckcallee")
+QUERYING = ("panic", "failflag", "stuck", "stuckcallee")
 
 # reply kind -> documented classification of the solver output
 REPLY_CLASS = {
@@ -185,6 +185,9 @@ def outcome_code(o: str) -> list:
     if o == "stuck":
         # MLOAD at a symbolic offset (second argument): halmos ends the path with NotConcreteError
         return e2e.arg(1) + ["MLOAD", "POP", "STOP"]
+    if o == "stuckcallee":
+        # the same internal error, but inside a nested frame (a call to this contract's helper)
+        return e2e.ext_call(["ADDRESS"], "stuckhelper(uint256)", words=[e2e.arg(1)]) + ["POP", "STOP"]
     raise ValueError(o)
 
 
@@ -215,6 +218,8 @@ def build_spec(name: str, tests: list, refinable=False, setup: str | None = None
         fns.append(("setUp()", ["PUSH0", "PUSH0", "REVERT"]))
     for t, outcomes in tests:
         fns.append((fn_sig(t), fn_body(t, outcomes, refinable)))
+    if any("stuckcallee" in outcomes for _, outcomes in tests):
+        fns.append(("stuckhelper(uint256)", e2e.arg(0) + ["MLOAD", "POP", "STOP"]))
     return e2e.Spec(name, fns=fns)
 
 
@@ -242,7 +247,7 @@ def expected_counts(outcomes, replies, refinable: bool) -> dict:
             last = r[1] if (r[0] == "sat_abs" and refinable and r[1]) else r[0]
             if k == "sat" and last == "sat_model":
                 c["valid_sat"] += 1
-        elif o == "stuck":
+        elif o in ("stuck", "stuckcallee"):
             # run_test confirms a stuck path with one synchronous solve_low_level: anything but unsat keeps it stuck
             if final_reply_class(r[0], None, refinable, False) != "unsat":
                 c["stuck"] += 1
